@@ -496,7 +496,7 @@ func explore(o *options, prog *interp.Program, hs []*hstate, tier int) {
 				h.mu.Lock()
 				h.Paths++
 				h.Status[res.Status]++
-				if res.Status != "ok" && res.Status != "assume" {
+				if res.Status != "ok" && res.Status != "assume" && res.Status != "known" {
 					r := res.Reason
 					if len(r) > 300 && !o.verbose {
 						r = r[:300]
